@@ -1137,7 +1137,14 @@ func ruleC08d(c *Ctx) {
 				}
 				for _, pf := range in.PF {
 					for _, a := range callCommon(pf).Args {
-						if _, isParam := strip(a).(*ssa.Parameter); !isParam {
+						// the filter's own parameter, possibly held in the cell a closure captures it through
+						isOwn := false
+						if src := p.sources(a, provOpt{ThroughCells: true}); len(src) == 1 {
+							if prm, ok := src[0].(*ssa.Parameter); ok && prm.Parent() == fn {
+								isOwn = true
+							}
+						}
+						if !isOwn {
 							badArgs = "ProcessFilter at " + p.ipos(pf) + " does not receive the filter's own request/response/chain"
 						}
 					}
